@@ -179,6 +179,8 @@ def call_bound(self, st, bm, args, kwargs, node):
         raise U("method %s on %s at %s" % (name, o.clsname(), self.loc(node)))
     if name.startswith("super."):
         return [(st, "val", None)]
+    if isinstance(recv, ClassVal) and recv.name() + "." + name in self.stubs:
+        return self.stubs[recv.name() + "." + name](self, st, [recv] + args, kwargs, node)
     if hasattr(recv, "abs_call"):
         return recv.abs_call(self, st, name, args, kwargs, node)
     if isinstance(recv, str):
@@ -194,6 +196,11 @@ def call_bound(self, st, bm, args, kwargs, node):
 
 
 def str_method(self, st, s, name, args, kwargs, node):
+    if name == "format" and not kwargs and any(hasattr(a, "abs_str") for a in args):
+        try:
+            return [(st, "val", s.format(*[a.abs_str() if hasattr(a, "abs_str") else a for a in args]))]
+        except Exception:       # noqa
+            pass
     if name in PURE_STR_METHODS and all(_plain(a) for a in args) and not kwargs:
         try:
             r = getattr(s, name)(*args)
@@ -520,6 +527,8 @@ def call_builtin(self, st, name, args, kwargs, node):
     if name in ("str", "repr", "int", "float", "id", "hash", "abs", "round", "min", "max", "sum", "vars"):
         if name == "str" and args and isinstance(args[0], str):
             return [(st, "val", args[0])]
+        if name == "str" and args and hasattr(args[0], "abs_str"):
+            return [(st, "val", args[0].abs_str())]
         if name == "int" and args and isinstance(args[0], (int, str)) and not isinstance(args[0], bool):
             try:
                 return [(st, "val", int(args[0]))]
@@ -617,6 +626,10 @@ def x_isinstance(self, st, v, cls, node):
         return Top("isinstance:" + v.tag, v.input)
     unknown = None
     for c in classes:
+        if isinstance(c, Builtin) and c.name in ("list", "tuple", "dict", "set", "str", "int", "float", "bool", "object", "bytes"):
+            c = ClassVal(c.name)
+        if isinstance(c, ModuleVal) and not isinstance(c.mod, Module) and hasattr(v, "abs_type"):
+            c = ClassVal(str(c.mod).split(".")[-1])         # class imported from outside the repository, harness token
         if not isinstance(c, ClassVal):
             unknown = Top("isinstance(?)", False)
             continue
